@@ -24,6 +24,7 @@ type c03Monitor struct {
 	trueSince  map[string]int    // instance -> number of AcquireLock(true) answers since its last freeze-class statement
 	frozeIn    map[string]bool   // instance sent a freeze-class statement in its current attempt
 	promoPhase map[string]bool   // instance has begun re-pointing / promoting in its current attempt
+	actedSince map[string]string // instance -> first cluster-wide SQL action since its last positive lock answer
 	Actions    int
 	Promos     int
 }
@@ -31,7 +32,7 @@ type c03Monitor struct {
 var c03Keys = map[string]bool{"master": true, "active_nodes": true, "switch": true, "last_switch": true, "last_rejected_switch": true}
 
 func newC03Monitor(sc *Scen) *c03Monitor {
-	m := &c03Monitor{sc: sc, lastLock: map[string]string{}, lastState: map[string]string{}, trueSince: map[string]int{}, frozeIn: map[string]bool{}, promoPhase: map[string]bool{}}
+	m := &c03Monitor{sc: sc, lastLock: map[string]string{}, lastState: map[string]string{}, trueSince: map[string]int{}, frozeIn: map[string]bool{}, promoPhase: map[string]bool{}, actedSince: map[string]string{}}
 	s := sc.S
 	s.OnIter(func(inst, state, next string, begin bool) {
 		m.mu.Lock()
@@ -51,6 +52,7 @@ func newC03Monitor(sc *Scen) *c03Monitor {
 		m.lastLock[inst] = res
 		if res == "true" {
 			m.trueSince[inst]++
+			delete(m.actedSince, inst)
 		}
 	})
 	judge := func(inst, what string) {
@@ -75,6 +77,14 @@ func newC03Monitor(sc *Scen) *c03Monitor {
 		m.mu.Lock()
 		defer m.mu.Unlock()
 		judge(r.Client, "zk "+r.Op+" "+p)
+		// the outcome of a request is published on a lock answer obtained after the procedure's own actions: a process
+		// that was deposed while it was busy with the servers must find that out before it books anything
+		if p == "switch" || p == "last_switch" || p == "last_rejected_switch" {
+			if a, acted := m.actedSince[r.Client]; acted {
+				m.sc.Violate("C03", "switch-outcome-without-lock-recheck-after-the-procedure", fmt.Sprintf("%s did [zk %s %s] without asking for the lock again after its cluster-wide action [%s]", r.Client, r.Op, p, a))
+			}
+			m.sc.Cover("switch-bookkeeping-judged")
+		}
 	})
 	s.W.Lock()
 	s.W.BeforeStmt = append(s.W.BeforeStmt, func(w *world.World, c *world.StmtCtx) {
@@ -90,6 +100,9 @@ func newC03Monitor(sc *Scen) *c03Monitor {
 		defer m.mu.Unlock()
 		if c.Host != in.Host {
 			judge(inst, "sql "+c.Class+" at "+c.Host)
+			if _, ok := m.actedSince[inst]; !ok {
+				m.actedSince[inst] = "sql " + c.Class + " at " + c.Host
+			}
 		}
 		switch c.Class {
 		case "change_source", "reset_replica":
